@@ -77,6 +77,7 @@ def run(ctx, rep):
     rep.floor("C16.O3 unwrapped single()", counts["O3"], 5)
     loop_boundary(F, rep)
     literal_conversions(F, rep)
+    single_visit(F, rep)
     rep.extra["analysis_rounds"] = fl.rounds
     rep.extra["hand_assembled_option_unwraps_counted_not_judged"] = getattr(fl, "uncounted", 0)
     # K4 panics outside the clause: counted
@@ -174,3 +175,121 @@ def literal_conversions(F, rep):
                    "violated" if bad else "ok", "unwrapped at %s: a literal whose value does not fit the type panics the compiler" % [b.span for b in bad] if bad else "",
                    c.span, fn=f.path, key="C16.literal|%s|%s" % (fshort, mir.short(mir.strip_generics(c.callee()))))
     rep.floor("C16.literal text-to-number conversions", n, 5)
+
+
+def single_visit(F, rep):
+    """Recursive walkers over the syntax tree visit each child once per level.  A function that calls back into its own recursion cycle twice on
+    the same child (directly, or through a helper such as a default trait method that itself evaluates the child) does 2^depth work: a
+    left-deep chain of a few dozen operators hangs the compiler.  Exact structural rule: within one function of a recursive cycle of the
+    call graph (trait calls resolved to every impl), no control-flow path contains two calls into the cycle whose receiver is the same
+    field of the same parameter."""
+    import sys
+    import rules
+    from mir import op_local
+    fns = {f.path: f for f in F.crates["compiler"].fns}
+    g0 = F.call_graph()
+    # class-hierarchy edges: a call of a trait item may reach every impl of it
+    impls = {}
+    for p in fns:
+        m = re.match(r"<(.+) as (.+)>::(\w+)$", p)
+        if m and mir.strip_generics(m.group(2)).startswith("compiler::"):
+            # only the crate's own traits (Compile, Dependencies, CompileTimeEvaluate, IntoType ...): std traits such as Deref / Display have
+            # impls all over and would tie unrelated functions into bogus cycles
+            impls.setdefault("%s::%s" % (m.group(2), m.group(3)), set()).add(p)
+    g = {}
+    for p in fns:
+        outs = set()
+        for q in g0.get(p, ()):
+            q2 = mir.strip_generics(q)
+            if q in fns:
+                outs.add(q)
+            fq = F.fn(q)
+            if fq is not None and fq.path in fns:
+                outs.add(fq.path)
+            for k, v in impls.items():
+                if q2 == mir.strip_generics(k):
+                    outs |= v
+        g[p] = outs
+    sys.setrecursionlimit(20000)
+    index, low, st, on, sccs, ctr = {}, {}, [], set(), [], [0]
+
+    def strong(v):
+        index[v] = low[v] = ctr[0]
+        ctr[0] += 1
+        st.append(v)
+        on.add(v)
+        for w in g.get(v, ()):
+            if w not in index:
+                strong(w)
+                low[v] = min(low[v], low[w])
+            elif w in on:
+                low[v] = min(low[v], index[w])
+        if low[v] == index[v]:
+            comp = []
+            while True:
+                w = st.pop()
+                on.discard(w)
+                comp.append(w)
+                if w == v:
+                    break
+            sccs.append(comp)
+    for v in fns:
+        if v not in index:
+            strong(v)
+    rec = [c for c in sccs if len(c) > 1 or c[0] in g.get(c[0], ())]
+    # generated parser code (pest rule closures) recurses by design on the *input position*, not on AST children
+    rec = [c for c in rec if not all("parse::rules::" in x for x in c)]
+    rep.floor("C16.single-visit recursive cycles in the compiler's call graph", len(rec), 5)
+    doubles = []
+    n_calls = 0
+    for comp in rec:
+        cs = set(comp)
+        for p in comp:
+            f = fns[p]
+            by = {}
+            for c in f.calls():
+                tgt = set()
+                for q in (c.res, c.defn):
+                    if not q:
+                        continue
+                    if q in cs:
+                        tgt.add(q)
+                    fq = F.fn(q)
+                    if fq is not None and fq.path in cs:
+                        tgt.add(fq.path)
+                    for k, v in impls.items():
+                        if mir.strip_generics(q) == mir.strip_generics(k) and v & cs:
+                            tgt |= (v & cs)
+                if not tgt or not c.args:
+                    continue
+                l = op_local(c.args[0])
+                if l is None:
+                    continue
+                key = tuple(sorted((o, fs) for o, fs in rules.trace_paths(f, l) if o[0] == "arg" and fs))
+                if not key:
+                    continue
+                n_calls += 1
+                by.setdefault(key, []).append(c)
+            for key, lst in by.items():
+                for i, a in enumerate(lst):
+                    for b in lst[i + 1:]:
+                        if a.bb == b.bb:
+                            continue
+                        ra = f.reachable(a.target) if a.target is not None else set()
+                        rb = f.reachable(b.target) if b.target is not None else set()
+                        if b.bb in ra or a.bb in rb:
+                            doubles.append((p, key, a, b))
+    seen = set()
+    for p, key, a, b in doubles:
+        fshort = mir.short(re.sub(r"::\{closure#\d+\}", "::{closure}", p))
+        child = ".".join(str(x) for x in key[0][1])
+        k = "C16.single-visit|%s|%s" % (fshort, child)
+        if k in seen:
+            continue
+        seen.add(k)
+        rep.ob("C16.single-visit", "%s evaluates its child `%s` once per level" % (fshort, child), "violated",
+               "two calls into the recursion on the same child lie on one path (%s at %s and %s at %s): 2^depth work on a nested expression -- the compiler "
+               "does not terminate promptly" % (mir.short(a.callee()), a.span, mir.short(b.callee()), b.span), a.span, fn=p, key=k)
+    rep.ob("C16.single-visit", "no recursive walker of the syntax tree descends twice into the same child on one path (%d recursive calls on children inspected)" % n_calls,
+           "ok" if not doubles else "violated", "", None, key="C16.single-visit|summary")
+    rep.floor("C16.single-visit recursive calls on child fields inspected", n_calls, 40)
